@@ -54,7 +54,11 @@ impl PixelDataReader for RleLosslessAdapter {
         let frame_size = stride * samples_per_pixel;
         // extend `dst` to make room for decoded pixel data
         let base_offset = dst.len();
-        dst.resize(base_offset + frame_size * nr_frames, 0);
+        let total = rle_output_size(frame_size, nr_frames)?;
+        dst.try_reserve(total)
+            .ok()
+            .whatever_context("Could not allocate the decoded pixel data")?;
+        dst.resize(base_offset + total, 0);
 
         // RLE encoded data is ordered like this (for 16-bit, 3 sample):
         //  Segment: 0     | 1     | 2     | 3     | 4     | 5
@@ -72,7 +76,7 @@ impl PixelDataReader for RleLosslessAdapter {
             let fragment = &src
                 .fragment(i)
                 .whatever_context("No pixel data found for frame")?;
-            let mut offsets = read_rle_header(fragment);
+            let mut offsets = read_rle_header(fragment)?;
             offsets.push(fragment.len() as u32);
 
             for sample_number in 0..samples_per_pixel {
@@ -80,11 +84,11 @@ impl PixelDataReader for RleLosslessAdapter {
                     // ii is 1, 0, 3, 2, 5, 4 for the example above
                     // This is where the segment order correction occurs
                     let ii = sample_number * bytes_per_sample + byte_offset;
-                    let segment = &fragment[offsets[ii] as usize..offsets[ii + 1] as usize];
+                    let segment = rle_segment(fragment, &offsets, ii)?;
                     let buff = io::Cursor::new(segment);
                     let (_, decoder) = PackBitsReader::new(buff, segment.len())
                         .whatever_context("Failed to read RLE segments")?;
-                    let mut decoded_segment = Vec::with_capacity(rows as usize * cols as usize);
+                    let mut decoded_segment = Vec::new();
                     decoder
                         .take(rows as u64 * cols as u64)
                         .read_to_end(&mut decoded_segment)
@@ -110,7 +114,10 @@ impl PixelDataReader for RleLosslessAdapter {
                         .step_by(bytes_per_sample * samples_per_pixel)
                         .enumerate()
                     {
-                        dst[base_offset + dst_index] = decoded_segment[decoded_index];
+                        let Some(v) = decoded_segment.get(decoded_index) else {
+                            whatever!("RLE segment is shorter than the image plane");
+                        };
+                        dst[base_offset + dst_index] = *v;
                     }
                 }
             }
@@ -164,6 +171,9 @@ impl PixelDataReader for RleLosslessAdapter {
         let frame_size = stride * samples_per_pixel;
         // extend `dst` to make room for decoded pixel data
         let base_offset = dst.len();
+        dst.try_reserve(frame_size)
+            .ok()
+            .whatever_context("Could not allocate the decoded frame")?;
         dst.resize(base_offset + frame_size, 0);
 
         // RLE encoded data is ordered like this (for 16-bit, 3 sample):
@@ -181,7 +191,7 @@ impl PixelDataReader for RleLosslessAdapter {
         let fragment = &src
             .fragment(frame as usize)
             .whatever_context("No pixel data found for frame")?;
-        let mut offsets = read_rle_header(fragment);
+        let mut offsets = read_rle_header(fragment)?;
         offsets.push(fragment.len() as u32);
 
         for sample_number in 0..samples_per_pixel {
@@ -189,12 +199,12 @@ impl PixelDataReader for RleLosslessAdapter {
                 // ii is 1, 0, 3, 2, 5, 4 for the example above
                 // This is where the segment order correction occurs
                 let ii = sample_number * bytes_per_sample + byte_offset;
-                let segment = &fragment[offsets[ii] as usize..offsets[ii + 1] as usize];
+                let segment = rle_segment(fragment, &offsets, ii)?;
                 let buff = io::Cursor::new(segment);
                 let (_, decoder) = PackBitsReader::new(buff, segment.len())
                     .map_err(|e| Box::new(e) as Box<_>)
                     .whatever_context("Failed to read RLE segments")?;
-                let mut decoded_segment = Vec::with_capacity(rows as usize * cols as usize);
+                let mut decoded_segment = Vec::new();
                 decoder
                     .take(rows as u64 * cols as u64)
                     .read_to_end(&mut decoded_segment)
@@ -210,7 +220,10 @@ impl PixelDataReader for RleLosslessAdapter {
                     .step_by(bytes_per_sample * samples_per_pixel)
                     .enumerate()
                 {
-                    dst[base_offset + dst_index] = decoded_segment[decoded_index];
+                    let Some(v) = decoded_segment.get(decoded_index) else {
+                        whatever!("RLE segment is shorter than the image plane");
+                    };
+                    dst[base_offset + dst_index] = *v;
                 }
             }
         }
@@ -221,11 +234,36 @@ impl PixelDataReader for RleLosslessAdapter {
 // TODO(#125) implement `encode`
 
 // Read the RLE header and return the offsets
-fn read_rle_header(fragment: &[u8]) -> Vec<u32> {
+fn read_rle_header(fragment: &[u8]) -> DecodeResult<Vec<u32>> {
+    // PS3.5 Annex G.5: the header is 64 bytes long and describes at most 15 segments
+    if fragment.len() < 64 {
+        whatever!("RLE fragment is shorter than its header");
+    }
     let nr_segments = LittleEndian::read_u32(&fragment[0..4]);
+    if nr_segments > 15 {
+        whatever!("Invalid number of RLE segments");
+    }
     let mut offsets = vec![0; nr_segments as usize];
     LittleEndian::read_u32_into(&fragment[4..4 * (nr_segments + 1) as usize], &mut offsets);
-    offsets
+    Ok(offsets)
+}
+
+/// The bytes of segment `ii`, if the header describes it within the fragment.
+fn rle_segment<'a>(fragment: &'a [u8], offsets: &[u32], ii: usize) -> DecodeResult<&'a [u8]> {
+    let (Some(start), Some(end)) = (offsets.get(ii), offsets.get(ii + 1)) else {
+        whatever!("Missing RLE segment");
+    };
+    fragment
+        .get(*start as usize..*end as usize)
+        .whatever_context("RLE segment out of the bounds of its fragment")
+}
+
+/// Number of bytes of `nr_frames` decoded frames, if it is representable.
+fn rle_output_size(frame_size: usize, nr_frames: usize) -> DecodeResult<usize> {
+    frame_size
+        .checked_mul(nr_frames)
+        .filter(|n| *n <= isize::MAX as usize / 2)
+        .whatever_context("Decoded pixel data size is too large")
 }
 
 /// PackBits Reader from the image-tiff crate
